@@ -145,12 +145,19 @@ def run(p: Program, rep: Report, tier: str) -> None:
         if len(rets) == 1 and len(bvals) == 1:
             v = bvals[0]
             # b"".join(<comprehension of the elements of self.stream(), unfiltered, element unchanged>)
+            def _is_stream(src_):
+                return (src_[0] == "gen" and src_[1] == st.fq and not src_[2] and not src_[3] and src_[4] == ("param", "self")) or \
+                    (src_[0] == "call" and callee_is(src_[1], "stream", "Request.stream") and not src_[2])
             if v[0] == "call" and v[1] == ("attr", ("const", b""), "join") and len(v[2]) == 1 and v[2][0][0] == "comp" and v[2][0][1] in ("list", "gen"):
                 cmpv = v[2][0]
                 src_ = cmpv[3]
-                is_stream = (src_[0] == "gen" and src_[1] == st.fq and not src_[2] and not src_[3] and src_[4] == ("param", "self")) or \
-                    (src_[0] == "call" and callee_is(src_[1], "stream", "Request.stream") and not src_[2])
-                join_ok = cmpv[2] == ("elem", src_) and not cmpv[4] and is_stream
+                join_ok = cmpv[2] == ("elem", src_) and not cmpv[4] and _is_stream(src_)
+            elif v[0] == "call" and v[1] == ("attr", ("const", b""), "join") and len(v[2]) == 1:
+                # ... or the stream itself / list(stream) / tuple(stream)
+                a0 = v[2][0]
+                if a0[0] == "call" and a0[1] in (("builtin", "list"), ("builtin", "tuple")) and len(a0[2]) == 1:
+                    a0 = a0[2][0]
+                join_ok = _is_stream(a0)
         if join_ok:
             rep.ok("R10.4", f"{side}: body = b''.join(all chunks of self.stream())")
         else:
@@ -297,6 +304,13 @@ def run(p: Program, rep: Report, tier: str) -> None:
     for fn in p.all_functions():
         if fn.cls is cp or (fn.parent is not None and fn.parent.cls is cp):
             continue
+        from ..common import owner_of as _owner_of
+        try:
+            own_ = _owner_of(p, fn)
+        except Exception:
+            own_ = fn
+        if own_ is not fn and own_.cls is cp:
+            continue  # a private single-caller helper of cached_property.__get__ (its store is judged with __get__, helpers inlined)
         for n in ast.walk(fn.node):
             if isinstance(n, (ast.Assign, ast.AugAssign, ast.AnnAssign)):
                 for t in (n.targets if isinstance(n, ast.Assign) else [n.target]):
